@@ -375,7 +375,7 @@ class EnumArrayDecode(Contract):
         w = EnumWorld(I, ctx)
         earr = I.resolve_qualified(EARR)
         L = ctx.fresh_int("L")
-        ctx.assume(L >= 1)
+        ctx.assume(L >= 0)          # an empty encoded array decodes to no members
         X = z3.Function(ctx.fresh_name("X"), z3.IntSort(), z3.IntSort())
         i = z3.Int("i_x")
         ctx.assume(z3.ForAll([i], z3.And(X(i) >= 0, X(i) < w.n)))
